@@ -223,6 +223,7 @@ class Walker(object):
             self.emit(label, vals, ekind, eid)
 
     noncanon_unit_under_op = False
+    grey221 = False
 
     def next_bitmapped(self):
         if self.cur is None:
@@ -270,8 +271,10 @@ class Walker(object):
                 X = d // 1000
                 if not (1 <= X <= 9 or X == 31):
                     return True
-            else:
+            elif not self.grey221:
                 raise Unsupported('221 range over non-element descriptor')
+            # grey221 (differential checks only): follow the library's reading - every descriptor in
+            # the list counts, non-element descriptors are processed normally
         if self.newref_bits and F == 0:
             if d not in self.B:
                 raise Unsupported('unknown element %06d' % d)
